@@ -154,7 +154,7 @@ func c01Exec(raw json.RawMessage, res *RunResult) {
 	}
 	dg := &Digest{}
 	ResetGlobals(sc.GlobalSeed)
-	ds.VerifSortedRange = true
+	ds.VerifSortedRange = false // Range is sorted by the library itself since the C06 fix; the real loop runs
 	m := &Meter{}
 	m.Install()
 	defer Uninstall()
